@@ -62,6 +62,16 @@ def done_flag(ck, P):
         # no path from the arm entry to done=1 that skips the crc test when FHCRC is set: the done block is not reachable from the mismatch edge
         ok = bool(ms) and all(not flow.reaches_avoiding(fn, [m], [b], cut_blocks={x for x in fn.live if x not in hreg}) for m in ms)
     ck.decide(ok, R, "done-after-crc", "a header-CRC mismatch never reaches done = 1", "done = 1 is reachable after a header CRC mismatch", where(fn))
+    # ... and after the arm's last input request: no suspension or mismatch exit is reachable once done = 1 is stored
+    from . import c04
+    st = c04.suspension_structure(fn, 20)
+    if ck.anchor("suspension structure of dispatch", st is not None):
+        sw_, cps, exits_ = st
+        bad_blocks = set(ms)
+        late = all(not flow.reaches_avoiding(fn, [b], exits_ | bad_blocks, cut_blocks={sw_}) for b in sites.get(1, []))
+        ck.decide(bool(sites.get(1)) and late, R, "done-last", "done = 1 is stored after the arm's last input request and after the CRC test",
+                  "arm HCrc stores head.done = 1 and can afterwards still run out of input or reject the header CRC: completion is signalled "
+                  "before the whole header has been parsed", where(fn))
     # Type from header arms only via HCrc
     tys = []
     for bi, si, lhs, rv, s in fn.assignments():
